@@ -272,6 +272,15 @@ fn declared_length(rep: &mut Report, rng: &mut Rng) {
         _ => n + rng.usize(1, 2 * block as usize),
     };
     let front = *rng.pick(&[Front::Sample, Front::ByteLE, Front::ByteBE, Front::Channel]);
+    // half of the under-filling histories stop on a block boundary and end with stray units short of
+    // one PCM frame (samples for the sample writer, bytes for the byte writers): nothing whole is left
+    // buffered, the stray data is not audio, and finalize still has to report the shortfall
+    let unit_len = match front {
+        Front::Sample => ch as usize,
+        Front::ByteLE | Front::ByteBE => ch as usize * bps.div_ceil(8) as usize,
+        Front::Channel => 1,
+    };
+    let (m, stray) = if relation == 1 && unit_len > 1 && rng.chance(1, 2) { (block as usize * rng.usize(0, (n - 1) / block as usize), rng.usize(1, unit_len - 1)) } else { (m, 0) };
     let mut r2 = Rng::new(rng.next());
     let pcm = flacref::pcm::generate(flacref::pcm::Signal::NoiseLow, ch as usize, bps, m, &mut r2);
     let calls = rng.usize(1, 5);
@@ -292,6 +301,9 @@ fn declared_length(rep: &mut Report, rng: &mut Rng) {
         std::cmp::Ordering::Greater => "over",
     };
     rep.count("declared_length_history", rel);
+    if stray > 0 {
+        rep.count("declared_length_history", "under + stray partial frame on a block boundary");
+    }
     rep.case_begin(&format!("declared {n} written {m} ch {ch} bps {bps} block {block} {front:?} splits {splits:?}"));
     let bytes_per = bps.div_ceil(8) as usize;
     let obs = mon::observe(|| -> (Vec<Result<(), String>>, Result<(), String>, Vec<u8>) {
@@ -309,6 +321,9 @@ fn declared_length(rep: &mut Report, rng: &mut Rng) {
                     results.push(w.write(&pcm[a..b]).map_err(|e| crate::api::show(&e)));
                     pos += s;
                 }
+                if stray > 0 {
+                    results.push(w.write(&vec![1i32; stray]).map_err(|e| crate::api::show(&e)));
+                }
                 fin = w.finalize().map_err(|e| crate::api::show(&e));
             }
             Front::ByteLE | Front::ByteBE => {
@@ -319,6 +334,9 @@ fn declared_length(rep: &mut Report, rng: &mut Rng) {
                 for s in &splits {
                     results.push(w.write_all(&bytes[pos * unit..(pos + s) * unit]).map_err(|e| format!("Io({e:?})")));
                     pos += s;
+                }
+                if stray > 0 {
+                    results.push(w.write_all(&vec![0x5Au8; stray]).map_err(|e| format!("Io({e:?})")));
                 }
                 fin = w.finalize().map_err(|e| crate::api::show(&e));
             }
@@ -336,7 +354,7 @@ fn declared_length(rep: &mut Report, rng: &mut Rng) {
         }
         (results, fin, c.into_inner())
     });
-    let replay = || J::obj().set("declared_frames", n).set("written_frames", m).set("channels", ch).set("bps", bps).set("block", block as u32).set("front", format!("{front:?}")).set("splits", J::Arr(splits.iter().map(|s| J::from(*s)).collect()));
+    let replay = || J::obj().set("declared_frames", n).set("written_frames", m).set("channels", ch).set("bps", bps).set("block", block as u32).set("front", format!("{front:?}")).set("splits", J::Arr(splits.iter().map(|s| J::from(*s)).collect())).set("stray_units", stray);
     match obs.result {
         Err(p) => rep.violation("panic", p.signature(), format!("declared {n} written {m}: {} at {}", p.msg, p.location), replay()),
         Ok((writes, fin, bytes)) => {
